@@ -2575,7 +2575,15 @@ class WorkflowGraph(object):
             variable_substitute(bool): Whether to perform variable substitution, optional for a primitive graph
                 but required for a replicated one
         """
-        concrete = experiment.model.frontends.flowir.FlowIRConcrete(flowir, platform, documents)
+        try:
+            concrete = experiment.model.frontends.flowir.FlowIRConcrete(flowir, platform, documents)
+        except experiment.model.errors.FlowException:
+            raise
+        except Exception as e:
+            # VV: A malformed dictionary (e.g. wrongly typed `references` or `stage`) is an invalid configuration
+            raise experiment.model.errors.ExperimentInvalidConfigurationError(
+                'Errors when loading configuration',
+                experiment.model.errors.FlowIRConfigurationErrors([e], "in-memory://"))
 
         exp_conf = experiment.model.conf.FlowIRExperimentConfiguration(
             concrete=concrete, path=None, is_instance=False, primitive=primitive, manifest=manifest,
